@@ -193,14 +193,14 @@ struct tcp_run
 			e["e"] = "Wire"; e["nth"] = n; e["hop"] = hop.substr(4); e["dig"] = std::int64_t(dig(p.buffer));
 			e["from"] = ep_json(w, p.from);
 			e["cb"] = bool(p.drop_fun);
-			if (p.drop_fun && p.type == packet::type_t::payload)
+			if (p.drop_fun && (p.type == packet::type_t::payload || p.type == packet::type_t::syn))
 			{
 				// observe the drop notification without changing it
 				auto orig = std::make_shared<sim::aux::function<void(packet)>>(std::move(p.drop_fun));
 				int c = conn; std::string d = dir;
 				p.drop_fun = [this, orig, c, d](packet dp) {
 					std::int64_t t2 = rec.sync();
-					json::object de; de["e"] = "Drop"; de["conn"] = c; de["dir"] = d;
+					json::object de; de["e"] = dp.type == packet::type_t::syn ? "DropSyn" : "Drop"; de["conn"] = c; de["dir"] = d;
 					de["seq"] = std::int64_t(dp.seq_nr); de["len"] = std::int64_t(dp.buffer.size()); de["t"] = t2;
 					rec.emit(de);
 					(*orig)(std::move(dp));
